@@ -876,6 +876,17 @@ func RunCell(c *Cell) (res *Result) {
 			clients = append(clients, plugin.NewClient(cfg))
 			stores, protos = append(stores, nil), append(protos, nil)
 			record(op, t0, nil, "spawned")
+		case "scribble": // the application takes client arg's ReattachConfig and edits ITS copy (an observer that must never kill, another namespace's address, a legacy reader), then drops it
+			i, _ := strconv.Atoi(arg)
+			if rc := clients[i].ReattachConfig(); rc != nil {
+				rc.Test = true
+				rc.Protocol = ""
+				rc.Pid = 0
+				rc.Addr = &net.UnixAddr{Name: "/nonexistent/elsewhere.sock", Net: "unix"}
+				record(op, t0, nil, "edited")
+			} else {
+				record(op, t0, errors.New("nil ReattachConfig"), "")
+			}
 		case "exited?": // what the current client says right now
 			record(op, t0, nil, strconv.FormatBool(clients[cur()].Exited()))
 		case "reattachlive": // like reattach, but the recorded pid belongs to a live bystander process
